@@ -1,3 +1,234 @@
-From ST Require Import Base.Outcome Mem.Heap Mem.Stream.
-Theorem placeholder : True. Proof. exact I. Qed.
-Print Assumptions placeholder.
+(* Properties/C16.v — C16: the bytes of an ST::string_stream are the concatenation of everything
+   appended, over any history and across every growth of the storage; nothing is leaked or freed
+   twice; a moved-from stream is a valid empty stream.  Statements only; proofs live in Mem/Stream*.v.
+   STK is ST_STACK_STRING_SIZE, abstract (>= 1) in every theorem and instantiated at the end with the
+   value harvested from the headers (Gen/Consts.stack_string_size).
+
+   Reading guide:
+     SInv STK st        every live stream: its in-object array has STK cells; size <= capacity;
+                        STK <= capacity; capacity = STK => raw_buffer() is its own array;
+                        capacity > STK => raw_buffer() is a live heap block of `capacity` cells which no
+                        other stream references; every live block belongs to a live stream (no leak);
+     scontents st r     raw_buffer()[0, size());
+     SRel st s          the bytes of each live stream are the byte string the SPEC store `s` gives it;
+     swf_history s ops  the history is a well-formed program (constructors on dead slots, members on
+                        live ones, inserted integers fit their unsigned type), stated on the spec store;
+     run_sop / run_shistory   the transcription of include/st_stringstream.h (Mem/Stream.v).
+
+   Not covered here: to_string() (from_utf8 / from_latin_1 of scontents: properties C01/C02),
+   operator<< for floating point and for UTF-16/32/wchar_t text (rendering: C13 / C01; they end in
+   the same append), m_size + added_size wrapping at 2^64.                                        *)
+From Coq Require Import NArith List Lia.
+From ST Require Import Base.Outcome Mem.Heap Mem.Stream Mem.StreamInv Mem.StreamSteps Mem.StreamHistory
+  Num.Digits Gen.Consts.
+Import ListNotations.
+
+(* the empty state satisfies the invariant *)
+Theorem c16_inv_init : forall STK, SInv STK sstate0 /\ SRel sstate0 bstore0.
+Proof. intros STK. exact (conj (sinv_init STK) srel_init). Qed.
+Print Assumptions c16_inv_init.
+
+(* the doubling loop of expand_buffer ends (Fault Hang unreachable) whenever the capacity is >= 1,
+   with a capacity that fits the request ... *)
+Theorem c16_growth_terminates : forall big need, 1 <= big ->
+  exists big', grow (S need) big need = Some big' /\ need <= big'.
+Proof. exact growth_terminates. Qed.
+Print Assumptions c16_growth_terminates.
+
+(* ... and never from capacity 0, the state the pinned tree left a moved-from stream in (finding 9,
+   repaired upstream: `move.m_alloc = ST_STACK_STRING_SIZE`) *)
+Theorem c16_grow_zero_refuted : grow (S 5) 0 5 = None /\ forall fuel need, 1 <= need -> grow fuel 0 need = None.
+Proof. exact (conj grow_zero_refuted grow_zero_never). Qed.
+Print Assumptions c16_grow_zero_refuted.
+
+(* expand_buffer: returns normally, keeps the invariant and every stream's bytes, and leaves room for
+   the request — from the in-object array to the first block, from a block to a bigger one, or in place *)
+Theorem c16_expand : forall STK, 1 <= STK -> forall st s o r added,
+  SInv STK st -> SRel st s -> sobjs st o = Some r ->
+  exists st' r', s_expand STK o added st = (Ok tt, st') /\ SInv STK st' /\ SRel st' s /\
+                 sobjs st' o = Some r' /\ s_size r' = s_size r /\ s_size r + added <= s_alloc r'.
+Proof. exact s_expand_ok. Qed.
+Print Assumptions c16_expand.
+
+(* one theorem per member: returns normally (no out-of-bounds access, no use of released storage, no
+   double free, no free of in-object storage, no hang: each would be a Fault), re-establishes the
+   invariant, and changes the bytes exactly as the byte-string spec says *)
+Theorem c16_ctor : forall STK, 1 <= STK -> forall st s o,
+  SInv STK st -> SRel st s -> sobjs st o = None ->
+  exists st', s_ctor STK o st = (Ok tt, st') /\ SInv STK st' /\ SRel st' (spec_sop s (SNew o)).
+Proof. exact s_ctor_ok. Qed.
+Print Assumptions c16_ctor.
+
+Theorem c16_append : forall STK, 1 <= STK -> forall st s o d,
+  SInv STK st -> SRel st s -> sobjs st o <> None ->
+  exists st', s_append STK o d st = (Ok tt, st') /\ SInv STK st' /\ SRel st' (spec_sop s (SAppend o d)).
+Proof. exact s_append_ok. Qed.
+Print Assumptions c16_append.
+
+Theorem c16_append_char : forall STK, 1 <= STK -> forall st s o c n,
+  SInv STK st -> SRel st s -> sobjs st o <> None ->
+  exists st', s_append_char STK o c n st = (Ok tt, st') /\ SInv STK st' /\ SRel st' (spec_sop s (SAppendChar o c n)).
+Proof. exact s_append_char_ok. Qed.
+Print Assumptions c16_append_char.
+
+Theorem c16_truncate : forall STK st s o n,
+  SInv STK st -> SRel st s -> sobjs st o <> None ->
+  exists st', s_truncate o n st = (Ok tt, st') /\ SInv STK st' /\ SRel st' (spec_sop s (STruncate o n)).
+Proof. exact s_truncate_ok. Qed.
+Print Assumptions c16_truncate.
+
+Theorem c16_erase : forall STK st s o n,
+  SInv STK st -> SRel st s -> sobjs st o <> None ->
+  exists st', s_erase o n st = (Ok tt, st') /\ SInv STK st' /\ SRel st' (spec_sop s (SErase o n)).
+Proof. exact s_erase_ok. Qed.
+Print Assumptions c16_erase.
+
+Theorem c16_move_ctor : forall STK, 1 <= STK -> forall st s o src,
+  SInv STK st -> SRel st s -> sobjs st o = None -> sobjs st src <> None ->
+  exists st', s_ctor_move STK o src st = (Ok tt, st') /\ SInv STK st' /\ SRel st' (spec_sop s (SMove o src)).
+Proof. exact s_ctor_move_ok. Qed.
+Print Assumptions c16_move_ctor.
+
+(* including o = src (self-move: no effect) *)
+Theorem c16_move_assign : forall STK, 1 <= STK -> forall st s o src,
+  SInv STK st -> SRel st s -> sobjs st o <> None -> sobjs st src <> None ->
+  exists st', s_assign_move STK o src st = (Ok tt, st') /\ SInv STK st' /\ SRel st' (spec_sop s (SMasg o src)).
+Proof. exact s_assign_move_ok. Qed.
+Print Assumptions c16_move_assign.
+
+(* operator<<(int / unsigned / long / ...): |value| = mag < 2^bits rendered by uint_formatter (Num/Digits.v,
+   proved equal to the canonical decimal digits in Num/DigitsProofs.v), '-' first when negative *)
+Theorem c16_shl_integer : forall STK, 1 <= STK -> forall st s o bits neg mag,
+  SInv STK st -> SRel st s -> sobjs st o <> None -> (mag < 2 ^ N.of_nat bits)%N ->
+  exists st', run_sop STK (SShl o bits neg mag) st = (Ok tt, st') /\ SInv STK st' /\
+              SRel st' (spec_sop s (SShl o bits neg mag)).
+Proof. exact s_shl_ok. Qed.
+Print Assumptions c16_shl_integer.
+
+Theorem c16_dtor : forall STK, 1 <= STK -> forall st s o,
+  SInv STK st -> SRel st s -> sobjs st o <> None ->
+  exists st', s_dtor STK o st = (Ok tt, st') /\ SInv STK st' /\ SRel st' (spec_sop s (SDel o)).
+Proof. exact s_dtor_ok. Qed.
+Print Assumptions c16_dtor.
+
+(* every operation of the history language *)
+Theorem c16_step : forall STK, 1 <= STK -> forall st s op,
+  SInv STK st -> SRel st s -> swf_op st op ->
+  exists st', run_sop STK op st = (Ok tt, st') /\ SInv STK st' /\ SRel st' (spec_sop s op).
+Proof. exact step_ok. Qed.
+Print Assumptions c16_step.
+
+(* every finite history, from any state satisfying the invariant / from the empty state *)
+Theorem c16_history : forall STK, 1 <= STK -> forall ops st s,
+  SInv STK st -> SRel st s -> swf_history s ops ->
+  exists st', run_sops STK ops st = (Ok tt, st') /\ SInv STK st' /\ SRel st' (fold_left spec_sop ops s).
+Proof. exact history_ok. Qed.
+Print Assumptions c16_history.
+
+Theorem c16_all_histories : forall STK, 1 <= STK -> forall ops,
+  swf_history bstore0 ops ->
+  exists st', run_sops STK ops sstate0 = (Ok tt, st') /\ SInv STK st' /\ SRel st' (fold_left spec_sop ops bstore0).
+Proof. exact reachable_ok. Qed.
+Print Assumptions c16_all_histories.
+
+(* what any observer sees of a live stream: raw_buffer()[0,size()) = its bytes, size(), and whether the
+   bytes sit inside the object *)
+Theorem c16_observe : forall STK st o r,
+  SInv STK st -> sobjs st o = Some r ->
+  s_observe o st = (Ok (mksobs (scontents st r) (s_size r) (negb (Nat.ltb STK (s_alloc r)))), st).
+Proof. exact observe_ok. Qed.
+Print Assumptions c16_observe.
+
+(* no two live streams share storage *)
+Theorem c16_exclusive : forall STK st pool, SInv STK st -> s_shares st pool = false.
+Proof. exact no_sharing. Qed.
+Print Assumptions c16_exclusive.
+
+(* end of scope: destroying the live streams releases every block; no destructor faults *)
+Theorem c16_end_of_scope : forall STK, 1 <= STK -> forall st pool,
+  SInv STK st -> (forall o, pool <= o -> sobjs st o = None) -> s_leaked_after_scope STK pool st = Ok 0.
+Proof. exact end_of_scope. Qed.
+Print Assumptions c16_end_of_scope.
+
+(* the function the correspondence check executes stays within what the spec allows, step by step:
+   result Ok, no sharing, and per slot exactly the spec bytes and their number *)
+Theorem c16_model_within_spec : forall STK, 1 <= STK -> forall ops st s pool,
+  SInv STK st -> SRel st s -> swf_history s ops ->
+  Forall2 (sstep_allowed pool) (spec_shistory ops s) (fst (run_shistory STK ops pool st)) /\
+  exists st', snd (run_shistory STK ops pool st) = st' /\ SInv STK st' /\ SRel st' (fold_left spec_sop ops s).
+Proof. exact run_shistory_allowed. Qed.
+Print Assumptions c16_model_within_spec.
+
+(* ... from the empty state, followed by the end of scope: the complete M line of a case *)
+Theorem c16_checked_run : forall STK, 1 <= STK -> forall ops pool,
+  swf_history bstore0 ops ->
+  (forall o, pool <= o -> fold_left spec_sop ops bstore0 o = None) ->
+  Forall2 (sstep_allowed pool) (spec_shistory ops bstore0) (fst (run_shistory STK ops pool sstate0)) /\
+  s_leaked_after_scope STK pool (snd (run_shistory STK ops pool sstate0)) = Ok 0.
+Proof. exact checked_run_ok. Qed.
+Print Assumptions c16_checked_run.
+
+(* a moved-from stream is live, satisfies the per-object clause of the invariant (so every member
+   theorem above applies to it: it can be appended to, assigned to, destroyed) and is EMPTY *)
+Theorem c16_moved_from_empty_ctor : forall STK, 1 <= STK -> forall st s o src,
+  SInv STK st -> SRel st s -> sobjs st o = None -> sobjs st src <> None ->
+  exists st', s_ctor_move STK o src st = (Ok tt, st') /\ SInv STK st' /\
+              exists r, sobjs st' src = Some r /\ sobj_ok STK st' src r /\ scontents st' r = [] /\ s_size r = 0.
+Proof. exact moved_from_empty_ctor. Qed.
+Print Assumptions c16_moved_from_empty_ctor.
+
+Theorem c16_moved_from_empty_assign : forall STK, 1 <= STK -> forall st s o src,
+  SInv STK st -> SRel st s -> sobjs st o <> None -> sobjs st src <> None -> o <> src ->
+  exists st', s_assign_move STK o src st = (Ok tt, st') /\ SInv STK st' /\
+              exists r, sobjs st' src = Some r /\ sobj_ok STK st' src r /\ scontents st' r = [] /\ s_size r = 0.
+Proof. exact moved_from_empty_assign. Qed.
+Print Assumptions c16_moved_from_empty_assign.
+
+(* appending to a moved-from stream: it then holds exactly the appended bytes, the target what it took *)
+Theorem c16_moved_from_then_append : forall STK, 1 <= STK -> forall st s o src d,
+  SInv STK st -> SRel st s -> sobjs st o = None -> sobjs st src <> None ->
+  exists st', run_sops STK [SMove o src; SAppend src d] st = (Ok tt, st') /\ SInv STK st' /\
+              exists r ro, sobjs st' src = Some r /\ scontents st' r = d /\
+                           sobjs st' o = Some ro /\ Some (scontents st' ro) = s src.
+Proof. exact moved_from_then_append. Qed.
+Print Assumptions c16_moved_from_then_append.
+
+(* this platform: ST_STACK_STRING_SIZE harvested from the headers is >= 1, so every theorem above
+   applies to the configuration the correspondence check runs (drv_mem: N.to_nat stack_string_size) *)
+Definition STK_here : nat := N.to_nat stack_string_size.
+
+Theorem c16_instantiation : 1 <= STK_here.
+Proof. apply PeanoNat.Nat.leb_le. vm_compute. reflexivity. Qed.
+Print Assumptions c16_instantiation.
+
+Theorem c16_checked_run_here : forall ops pool,
+  swf_history bstore0 ops ->
+  (forall o, pool <= o -> fold_left spec_sop ops bstore0 o = None) ->
+  Forall2 (sstep_allowed pool) (spec_shistory ops bstore0) (fst (run_shistory STK_here ops pool sstate0)) /\
+  s_leaked_after_scope STK_here pool (snd (run_shistory STK_here ops pool sstate0)) = Ok 0.
+Proof. exact (checked_run_ok STK_here c16_instantiation). Qed.
+Print Assumptions c16_checked_run_here.
+
+(* non-vacuity: a concrete well-formed history (capacity 4, so that 4 / 8 / 16 play the role of
+   256 / 512 / 1024) growing a stream from the in-object array to a block and to a bigger block, moving
+   it in both storage modes, self-move, integer insertion, truncate / erase, use of the moved-from
+   stream; the hypotheses hold, every step returns normally and nothing is leaked *)
+Example c16_nonvacuous :
+  let ops := [SNew 0; SAppend 0 [1;2;3]%N; SAppendChar 0 9%N 2; SMove 1 0; SAppend 0 [7]%N;
+              SAppend 1 [4;5;6;7]%N; SNew 2; SMasg 2 1; SMasg 2 2; SShl 2 32 true 42%N; STruncate 2 10;
+              SErase 2 1; SMasg 0 2; SAppendChar 2 8%N 5; SDel 1; SMove 1 2] in
+  swf_history bstore0 ops /\
+  fst (run_sops 4 ops sstate0) = Ok tt /\
+  fold_left spec_sop ops bstore0 0 = Some [1;2;3;9;9;4;5;6;7]%N /\
+  s_leaked_after_scope 4 3 (snd (run_shistory 4 ops 3 sstate0)) = Ok 0.
+Proof. vm_compute. repeat split; try discriminate; reflexivity. Qed.
+
+(* the same at the real capacity: 255, 256, 257 bytes, then past 512, moves in both storage modes *)
+Example c16_nonvacuous_here :
+  let ops := [SNew 0; SAppendChar 0 97%N 255; SAppend 0 [98]%N; SMove 1 0; SAppend 1 [99]%N;
+              SAppend 0 [100]%N; SAppendChar 1 101%N 256; SMasg 0 1; SMasg 0 0; SShl 1 64 false 18446744073709551615%N;
+              SDel 0] in
+  swf_history bstore0 ops /\
+  fst (run_sops STK_here ops sstate0) = Ok tt /\
+  s_leaked_after_scope STK_here 2 (snd (run_shistory STK_here ops 2 sstate0)) = Ok 0.
+Proof. vm_compute. repeat split; try discriminate; reflexivity. Qed.
